@@ -5,6 +5,10 @@ import os
 VERIF = os.path.dirname(os.path.dirname(os.path.abspath(__file__)))
 
 CLAIMED = {
+    "C08": ("TLA+ ThreadsMech |= ThreadsAbs (TLC, all interleavings) + systematic schedule exploration of real threads, TraceThreads",
+            "the mechanism model is checked for every interleaving of 2-3 threads at load/store granularity, and every schedule "
+            "with up to two preemptions placed at the attribute/subscript loads and stores of the tooling code is executed "
+            "with real threads under a deterministic scheduler; per-thread events, returns and the final state are judged by TLC"),
     "C10": ("TLA+ TraceNames (activation outcome vs Python's symtable) + TLC validation of real activation attempts",
             "for hand-written functions binding/reading names in every placement and for every generated IR program, every "
             "identifier (symtable names, nested-scope names, fresh names, meta-variables) is tried with a real probe; outcome, "
